@@ -2,7 +2,7 @@
 (* Family Hidden: every hiding constructor over annotated hidden sub-trees.  *)
 (* Serves C07.                                                              *)
 EXTENDS MCGen
-OpsV == {"Copy", "GoNew", "Sentinel", "Errno", "New", "Newf", "Wrapf", "Unimplemented", "WithHint", "WithDetail",
+OpsV == {"Copy", "GoNew", "Sentinel", "Errno", "New", "Newf", "NewfW", "Wrapf", "Unimplemented", "WithHint", "WithDetail",
          "WithTelemetry", "WithDomain", "WithIssueLink", "WithContextTags", "WithAssertionFailure",
          "WrapWithHTTPCode", "WrapWithGrpcCode", "Mark", "WithSecondaryError", "CombineErrors",
          "Handled", "Opaque", "HandledWithMessage", "HandledInDomain", "EnsureNotInDomain", "HandledInDomainWithMessage",
